@@ -393,6 +393,32 @@ theorem batch_within_limits (hne : ∀ r, C.enc r ≠ []) (st : Settings) (ans :
   rw [hs] at hb
   exact hb
 
+include hr in
+/-- **… across configuration updates**: take ANY history `h` — configuration updates anywhere in it —
+    that ends with nothing buffered (at the start, or right after a flush by size, by time, by the idle
+    timeout), and any continuation `h'` without a further update: in the state reached the batch under
+    construction is within the buffer limit and the waiting time *in force*, i.e. those the last update
+    of `h` put in force (`lim`).  (While a batch is under construction an update may lower the limits
+    below what is already buffered; the code re-examines the batch at the next `Append`, which is what
+    `flush_on_append` states for arbitrary settings.)  `batch_within_limits` is the case `h = []`. -/
+theorem batch_within_limits_after_reconfig (hne : ∀ r, C.enc r ≠ []) (st : Settings) (ans : List Bool) (h h' : List (In ρ))
+    (h0 : (final v Z C (init st ans) h).bufLen = 0) (hc : ∀ i ∈ h', isConfig i = false) :
+    let lim := (final v Z C (init st ans) h).settings
+    let s := final v Z C (init st ans) (h ++ h')
+    ((s.bufLen : Int) < lim.maxBuf ∨ s.bufLen = 0) ∧
+    (s.firstTime = 0 → ∀ r ∈ s.buf, C.time r = 0) ∧
+    (s.firstTime ≠ 0 → ∀ r ∈ s.buf, C.time r = 0 ∨ C.time r = s.firstTime ∨ C.time r - s.firstTime < lim.maxWait) := by
+  intro lim s
+  have hb0 : (final v Z C (init st ans) h).buf = [] := flushed_means_empty v Z C hr hne st ans h h0
+  have hB : BInv C (final v Z C (init st ans) h) := by
+    refine ⟨Or.inr h0, ?_, ?_⟩ <;> intro _ r hr' <;> simp [hb0] at hr'
+  have hb := history_BInv v Z C hr hne h' _ hc hB
+  have hs := (settings_const v Z C h' hr (final v Z C (init st ans) h) hc).1
+  rw [← final_append] at hb hs
+  unfold BInv at hb
+  rw [hs] at hb
+  exact hb
+
 /-- cancellation (repaired code): at its next `select` the loop drains the queue into the last
     batch, flushes it and returns -/
 theorem loop_cancel_exits (l : LState ρ) (k : Int) (hi : LInv l) (hpc : l.pc = .top) (hc : l.cancelled = true) :
@@ -741,6 +767,11 @@ example : ((crun .fixed xZ xC (init ⟨5000, 1000, 5, 3⟩) 0
     cancelled while records are queued and a batch is under construction -/
 example := loop_exit_emits_everything xZ yC yC_nonempty defaults []
   [.add (1, [1]), .select 0, .poll 0, .add (2, [2]), .add (3, [3]), .cancel] 7 (by decide) (by decide)
+
+/-- `batch_within_limits_after_reconfig` instantiated: two updates, a flush, then records under the new limits -/
+example := batch_within_limits_after_reconfig .fixed xZ yC rfl yC_nonempty ⟨50, 1000, 100, 3⟩ [false, true]
+  [.append (1000, [1]), .applyConfig ⟨none, some 10, some 30, none⟩, .append (1001, [2]), .applyConfig ⟨none, some 7, some 20, some 0⟩, .step, .step]
+  [.add (1010, [2, 3]), .step, .sendDirect [(1, [4])]] (by decide) (by decide)
 
 /-- `batch_within_limits` instantiated: no configuration update in the history -/
 example := batch_within_limits .fixed xZ yC rfl yC_nonempty ⟨50, 1000, 100, 3⟩ [false, true]
